@@ -129,3 +129,15 @@ func TestVerifC13SessDesc(t *testing.T) {
 }
 
 func TestVerifReplay(t *testing.T) { vstat.RunReplays(t) }
+
+func FuzzC13Deserialize(f *testing.F) {
+	f.Add(`{"type":"offer","sdp":"v=0\r\n"}`)
+	f.Add(`{"type":1,"sdp":null}`)
+	f.Add(`[]`)
+	f.Fuzz(func(t *testing.T, msg string) {
+		c := dcase{Mode: "text", Msg: msg}
+		if err := vstat.Safely(func() error { return runDesc(t, c) }); err != nil {
+			t.Fatalf("%s", uDesc.Fail(c, "%v", err))
+		}
+	})
+}
